@@ -55,11 +55,12 @@ fn commitment<G: SymGroup + GroupEncoding + SerializeElement, const N: usize>(se
     for sel in subsets(N, tier) {
         let name = format!("C10 CommitmentProof<{},{}> chosen={:?}", G::GNAME, N, sel.iter().map(|b| *b as u8).collect::<Vec<_>>());
         let selc = sel.clone();
-        let _ = forced_result(&name, "C10 honest-commitment-proof-rejected", DrawMode::NonDegenerate, seed, "verify", 8, true, || {
+        let _ = forced_result_labels(&name, "C10 honest-commitment-proof-rejected", DrawMode::NonDegenerate, seed, &["build", "verify"], 2, true, || {
             let mut rng = SeedRng::new(seed);
             let params = PedersenParameters::<G, N>::new(&mut rng);
             let m: [Scalar; N] = sym_scalars("m");
             let (o, ks) = chosen::<N>(&selc);
+            sx::set_label("build");
             let b = CommitmentProofBuilder::<G, N>::generate_proof_commitments(&mut rng, Message::new(m), &o, &params);
             sx::set_label("hash-builder");
             let c = ChallengeBuilder::new().with(&b).finish();
@@ -85,12 +86,13 @@ fn signature<const N: usize>(seed: u64, tier: Tier) {
     for sel in subsets(N, tier) {
         let name = format!("C10 SignatureProof<{}> chosen={:?}", N, sel.iter().map(|b| *b as u8).collect::<Vec<_>>());
         let selc = sel.clone();
-        let _ = forced_result(&name, "C10 honest-signature-proof-rejected", DrawMode::NonDegenerate, seed, "verify", 8, true, || {
+        let _ = forced_result_labels(&name, "C10 honest-signature-proof-rejected", DrawMode::NonDegenerate, seed, &["build", "verify"], 2, true, || {
             let mut rng = SeedRng::new(seed);
             let kp = KeyPair::<N>::new(&mut rng);
             let m: [Scalar; N] = sym_scalars("m");
             let sig = Message::new(m).sign(&mut rng, &kp);
             let (o, ks) = chosen::<N>(&selc);
+            sx::set_label("build");
             let b = SignatureProofBuilder::<N>::generate_proof_commitments(&mut rng, Message::new(m), sig, &o, kp.public_key());
             sx::set_label("hash-builder");
             let c = ChallengeBuilder::new().with(&b).finish();
@@ -115,11 +117,12 @@ fn request<const N: usize>(seed: u64, tier: Tier) {
     for sel in subsets(N, tier) {
         let name = format!("C10 SignatureRequestProof<{}> chosen={:?}", N, sel.iter().map(|b| *b as u8).collect::<Vec<_>>());
         let selc = sel.clone();
-        let _ = forced_result(&name, "C10 honest-request-proof-rejected", DrawMode::NonDegenerate, seed, "verify", 8, true, || {
+        let _ = forced_result_labels(&name, "C10 honest-request-proof-rejected", DrawMode::NonDegenerate, seed, &["build", "verify"], 2, true, || {
             let mut rng = SeedRng::new(seed);
             let kp = KeyPair::<N>::new(&mut rng);
             let m: [Scalar; N] = sym_scalars("m");
             let (o, _ks) = chosen::<N>(&selc);
+            sx::set_label("build");
             let b = SignatureRequestProofBuilder::<N>::generate_proof_commitments(&mut rng, Message::new(m), &o, kp.public_key());
             sx::set_label("hash-builder");
             let c = ChallengeBuilder::new().with(&b).finish();
